@@ -388,7 +388,10 @@ class Indentation(afmformats.AFMForceDistance):
                               names=names,
                               lda=lda)
             rt = rater.rate(datasets=self)[0]
-            self._rating = (curhash, regressor, training_set, names, lda, rt)
+            # (remember a copy of `names`, so that in-place edits of the
+            # caller's list are noticed by the comparison above)
+            self._rating = (curhash, regressor, training_set,
+                            copy.copy(names), lda, rt)
         else:
             # Use cached rating
             rt = self._rating[-1]
